@@ -85,6 +85,7 @@ def execute(ctx, scn, events, tids, next_tid, data=None):
     data = content(scn["size"], scn["seed"]) if data is None else data   # (the pipeline check G05 supplies real envelopes)
     inp.write_bytes(data)
     core.through_link(inp, scn.get("seed", 0) % 5 == 3)
+    inp = core.through_dotdot(inp, scn.get("seed", 0) % 7 == 5)
     dotted = scn.get("seed", 0) % 3 == 1   # output names with more than one dot
     st, pf = d / ("storage.v2.hex" if dotted else "storage.hex"), d / ("part.rel.1.hex" if dotted else "part.hex")
     err = None
